@@ -10,6 +10,7 @@ ASSUMPTIONS = [
     "durations are arbitrary integers >= 0 (z3 Int, unbounded above); non-integer durations outside the claim",
     "instance shapes bounded as stated in coverage.bounds; larger shapes outside the claim",
     "builtins max/min modelled as If-terms (first-wins), int() identity on integer terms",
+    "'second' sub-spaces run the history on a dispatcher that already played an episode of every length and was reset()",
 ]
 STUBS = ["max", "min", "int (dispatcher module only)"]
 BUDGET = {"quick": 420, "thorough": 2400}
@@ -34,6 +35,8 @@ def subspaces(tier):
     s3 = D.shapes(3, 3)
     for f in (["none", "default_pair"] if tier == "quick" else filters):
         out += C.structure_subspaces(s3, 2, True, only_flexible=True, filter=f)
+    out += C.structure_subspaces(s3 + [(2, 2)], 2, False, canonical=True, filter="default_pair", second=True)
+    out += C.structure_subspaces(D.shapes(2, 2), 2, True, only_flexible=True, filter="none", second=True)
     if tier == "thorough":
         s4only = [s for s in s4 if sum(s) == 4]
         for f in filters:
@@ -46,7 +49,8 @@ def subspaces(tier):
     return out
 
 
-cost = C.cost
+def cost(sp):
+    return C.cost(sp) * (C.cost(sp) if sp.get('second') else 1)
 
 
 def check_state(eng, desc, disp, spec, k):
@@ -66,6 +70,15 @@ def harness(eng, sp):
 
     inst, desc = D.build_instance(eng, sp["shape"], sp["machines"], dmin=0)
     disp = Dispatcher(inst, ready_operations_filter=C.make_filter(sp.get("filter")))
+    if sp.get("second"):
+        # an earlier episode of chosen length on the same dispatcher, then reset(): later episodes are dispatch histories too
+        s0 = Spec(desc)
+        for _ in range(1 + eng.choice(desc.n_ops, "first-episode-length")):
+            disp.available_operations()
+            op, m = D.choose_dispatch(eng, desc, s0)
+            disp.dispatch(D.op_by_id(inst, op), m)
+            s0.apply(op, m)
+        disp.reset()
     spec = Spec(desc)
     for k in range(desc.n_ops):
         if sp.get("filter", "none") != "none":
